@@ -155,3 +155,16 @@ Proof.
   clear - Hs. induction Hs as [|q l fs bs H _ IH]; constructor; [|assumption].
   rewrite (abs_inv _ _ H). split; [apply drop_spec|apply is_empty_spec]; assumption.
 Qed.
+
+(** every queue of every state reached by an operation sequence has a geometry the monitor accepts
+    (apply to the prefixes of a sequence for the intermediate states) *)
+Theorem flat_geom_ok_run prog n ops evs fs :
+  prog_wf prog -> Forall op_wf ops ->
+  run flat_impl prog (init flat_impl n) ops = Ok (evs, fs) ->
+  Forall (fun q => geom_ok (fq_geometry q) = true) fs.
+Proof.
+  intros Hp Hw Hr.
+  destruct (run_sim prog Hp ops _ _ _ _ (init_sim n) Hw Hr) as (bs & _ & Hs).
+  clear - Hs. induction Hs as [|q l fs bs H _ IH]; constructor; [|assumption].
+  eapply geom_ok_spec; eassumption.
+Qed.
